@@ -154,7 +154,7 @@ struct World {
   bool fault_injected = false;
   bool alloc_window_open = false;
   bool alloc_fault = false;  // param alloc=1: operator new may fail on the connecting thread during the top-level connect
-  AllocStats astats[4];
+  AllocStats astats[6];  // 0..2 arenas in use, 3 unknown/erased (-1), 4 the select_on_container_copy_construction arena (never legal)
   // tracked values
   struct VRec { const void* addr; long id; uint8_t st; };
   hvec<VRec> vals;
@@ -166,7 +166,7 @@ World* world() { return g_world; }
 
 unifex::single_thread_context* world_ctx(int id) { return g_world->ctx[id].p; }
 std::thread::id world_ctx_thread(int id) { return g_world->ctx_thread[id]; }
-AllocStats& alloc_stats(int id) { return g_world->astats[id & 3]; }
+AllocStats& alloc_stats(int id) { return g_world->astats[id == 4 ? 4 : (id & 3)]; }
 
 // ---- tracked values
 static World::VRec* val_find(const void* a) {
@@ -576,7 +576,7 @@ void build_node(World* w, int id) {
       });
       break;
     }
-    case K_WITH_ALLOC: n.impl = make_node([a, k] { return unifex::with_allocator(any_snd(a), sim_allocator<std::byte>{2 + (int)(k & 1)}); }); break;
+    case K_WITH_ALLOC: n.impl = make_node([a, k] { return unifex::with_allocator(any_snd(a), sim_allocator<std::byte>{2}); }); break;
     case K_WHEN_ANY:
       if (n.nchild == 2) n.impl = make_node([a, b] { return unifex::when_any(any_snd(a), any_snd(b)); });
       else n.impl = make_node([a, b, c] { return unifex::when_any(any_snd(a), any_snd(b), any_snd(c)); });
@@ -1082,7 +1082,7 @@ void expected_queries(World* w, int node, long* tag, int* sched, int* alloc) {
     Node& p = w->nodes[path[i]];
     if (p.kind == K_ANY_SENDER) { *tag = -1; *sched = -3; *alloc = -1; }  // a plain any_sender_of<> declares no query besides the stop token
     if (p.kind == K_WITH_TAG) *tag = p.k;
-    if (p.kind == K_WITH_ALLOC) *alloc = 2 + (int)(p.k & 1);
+    if (p.kind == K_WITH_ALLOC) *alloc = 2;
     if (p.kind == K_ON) *sched = p.ctx;
   }
 }
@@ -1303,7 +1303,8 @@ void body_expr(void*) {
       }
     }
     // C12: every allocation made through an allocator obtained from a receiver went back to the same allocator
-    for (int id = 0; id < 4; ++id) {
+    KIT_CHECK(w->astats[4].allocs == 0 && w->astats[4].deallocs == 0, "c12.allocator-identity", "%ld allocation(s) were served by an arena that is never visible through any receiver (an adaptor replaced the allocator it was given)", (long)w->astats[4].allocs);
+    for (int id = 0; id < 5; ++id) {
       AllocStats& a = w->astats[id];
       KIT_CHECK(a.allocs == a.deallocs && a.bytes == 0, "c12.allocator-pairing", "allocator %d served %ld allocations and received %ld deallocations (%ld bytes outstanding)", id, (long)a.allocs, (long)a.deallocs, (long)a.bytes);
       if (a.allocs) usim_probe("allocator pairing checked");
